@@ -1,5 +1,7 @@
 import SJ.Generated.Consts
 import SJ.Proofs.Pipeline
+import SJ.Proofs.WalkSafe
+import SJ.Proofs.Rebuild
 /-
 C05 — No input can crash, hang or produce an untraversable result.
 -/
@@ -24,5 +26,28 @@ theorem C05_sync_capacity_tight : maxSends (32 * 1024) + 1 > cchanCap := by deci
 theorem C05_ring_safe (evs : List SJ.Pipeline.Ev) (s : SJ.Pipeline.St)
     (hr : SJ.Pipeline.run SJ.Pipeline.repoCfg {} evs = some s) : SJ.Pipeline.Safe SJ.Pipeline.repoCfg s :=
   SJ.Pipeline.safe_of_inv (SJ.Pipeline.inv_run _ (by decide) evs {} s (SJ.Pipeline.inv_init _) hr)
+
+open SJ SJ.WalkSafe
+
+/-- **Every traversal terminates without panic on ANY tape** (no well-formedness assumed): the basic walkers … -/
+theorem C05_advance (pj : PJ) (i : Iter) (hv : Iter.Valid pj i) : OkOrErr (Iter.advance pj i) := by
+  obtain ⟨i', ty, h, _⟩ := advance_safe pj i hv; exact Or.inl ⟨_, h⟩
+theorem C05_advanceInto (pj : PJ) (i : Iter) (hv : Iter.Valid pj i) : OkOrErr (Iter.advanceInto pj i) := by
+  obtain ⟨i', ty, h, _⟩ := advanceInto_safe pj i hv; exact Or.inl ⟨_, h⟩
+theorem C05_advanceIter (pj : PJ) (i d : Iter) (hv : Iter.Valid pj i) : OkOrErr (Iter.advanceIter pj i d) :=
+  (advanceIter_safe pj i d hv).1
+/-- … marshalling, `Interface`, `Object.Parse`/`Map`, and the whole ordered read-back. `OkOrErr` excludes both
+    `.panic` and `.diverge` (fuel exhausted = the Go loop would still be running). -/
+theorem C05_marshal (pj : PJ) (i : Iter) (dst : Bytes) (hv : Iter.Valid pj i) : OkOrErr (Iter.marshalBuf pj i dst) :=
+  marshalBuf_safe pj i dst hv
+theorem C05_interface (pj : PJ) (i : Iter) (hv : Iter.Valid pj i) : OkOrErr (Iter.interface pj i (fuelOf pj)) :=
+  interface_safe pj i hv
+theorem C05_object_parse (pj : PJ) (o : View) (hl : o.lim ≤ pj.tape.size) : OkOrErr (View.parse pj o #[] (fuelOf pj)) :=
+  parse_safe pj o hl
+theorem C05_owalk (pj : PJ) : OkOrErr (owalk pj) := owalk_safe pj
+/-- a fresh iterator is valid -/
+theorem C05_iter_valid (pj : PJ) : Iter.Valid pj (Iter.ofPJ pj) := ofPJ_valid pj
+/-- room for one more block and the tail block in every index buffer -/
+theorem C05_buffer_bound : cindexSizeWithSafetyBuffer + 64 + 64 ≤ cindexSize := by decide
 
 end SJ.Properties.C05
